@@ -21,7 +21,7 @@ import (
 	"verifharness/internal/kc"
 )
 
-var c11RabinFaults = []string{"none", "absent", "badShareJustified", "badShareUnjustified", "noResponses", "thresholdOne", "badSecretCommits", "badShareBadJustification", "forgedJustification"}
+var c11RabinFaults = []string{"none", "absent", "badShareJustified", "badShareUnjustified", "noResponses", "thresholdOne", "badSecretCommits", "badShareBadJustification", "forgedJustification", "longSecretCommits"}
 
 type rabNode struct {
 	i      int
@@ -347,13 +347,15 @@ func c11RabinScenarioV(c *kc.Ctx, mock bool, n, t int, faults map[int]string, vi
 		}
 		var sc *rdkg.SecretCommits
 		run(func() { sc, _ = x.secretCommits() })
-		if sc != nil && x.fault == "badSecretCommits" {
+		if sc != nil && (x.fault == "badSecretCommits" || x.fault == "longSecretCommits") {
 			// publish commitments of f + h where h vanishes at the evaluation point (index+1) of every
 			// node except the victim: only the victim's share fails, it complains, the others reveal
 			// their shares and the dealer's real commitments are reconstructed
 			h := []kyber.Scalar{w.suite.Scalar().Pick(w.suite.RandomStream())}
 			for j := 0; j < n; j++ {
-				if j == x.victim || j == x.i {
+				// "longSecretCommits": h vanishes at EVERY evaluation point - the commitments (n+1 of them) match every
+				// share, nobody can complain, and the polynomial is not the one that was dealt
+				if x.fault == "badSecretCommits" && (j == x.victim || j == x.i) {
 					continue
 				}
 				root := w.suite.Scalar().SetInt64(int64(j + 1))
